@@ -2,4 +2,3 @@ import Proofs.Map
 import Proofs.Toks
 import Proofs.Structure
 import Proofs.Range
-import Proofs.TypePlan
